@@ -556,3 +556,99 @@ def rule_cond(ctx, prop):
                           f.loc(), cfg)
         rep.floor("remove_condition_parentheses call sites", n, 4, cfg)
     return rep
+
+
+# ---------------------------------------------------------------------------
+# R-COLLAPSE: one-line ("collapsed") layouts are only chosen after every token that would be followed by more
+# text on the same line was tested for comments (a `--` comment there would swallow the rest of the line)
+
+COLLAPSE_GUARDS = [
+    # (name, member functions, node accessor -> sides that must be tested)
+    ("single-line if", ["formatters::stmt::format_if", "formatters::stmt::is_if_guard"],
+     {"if_token": {"trailing"}, "condition": {"leading", "trailing"}, "then_token": {"leading", "trailing"},
+      "block": {"leading", "trailing"}}),
+    ("collapsed function body", ["formatters::functions::should_collapse_function_body"],
+     {"parameters_parentheses": {"trailing"}, "end_token": {"leading"}, "block": {"leading", "trailing"}}),
+]
+COMMENT_TEST = re.compile(r"(trivia_util::contains_comments$|has_leading_comments$|has_trailing_comments$|"
+                          r"token_contains_comments\w*$|contains_singleline_comments$|has_inline_comments$)")
+
+
+def _accessor_chain(f, operand, depth=0):
+    """';'-terminated names of the accessor calls / fields a value was obtained through, innermost last:
+    `fb.parameters_parentheses().tokens().1` -> '...::tokens;.1;...::parameters_parentheses;'"""
+    if is_const(operand) or depth > 8:
+        return ""
+    root, steps = access_path(f, operand)
+    out = "".join("." + (s[1] if len(s) > 1 else "[]") + ";" for s in reversed(steps))
+    if root[0] == "call":
+        t = f.blocks[root[1]]["term"]
+        out += "::" + callee(t).split("::")[-1] + ";"
+        cand = [a for a in t["args"] if not is_const(a) and
+                not any(x in f.local_ty(op_place(a)["l"]) for x in ("Context", "Shape", "FormatTriviaType"))]
+        if cand:
+            out += _accessor_chain(f, cand[0], depth + 1)
+    return out
+
+
+def rule_collapse(ctx, prop):
+    import r_replace
+    rep = Report(prop, "R-COLLAPSE", "a one-line layout is chosen only after every token that will be followed by more text "
+                                     "on that line was tested for comments")
+    for cfg, prog in ctx.programs.items():
+        for name, members, need in COLLAPSE_GUARDS:
+            fns = [prog.fn("stylua_lib", m) for m in members]
+            if not rep.anchor(all(f is not None for f in fns), f"collapse guard functions {members}", cfg):
+                continue
+            tested = {}
+            for f in fns:
+                for b, t in f.calls():
+                    c = callee(t)
+                    sides = None
+                    node_arg = None
+                    if COMMENT_TEST.search(c):
+                        n = c.split("::")[-1]
+                        sides = {"leading"} if "leading" in n else {"trailing"} if "trailing" in n else {"leading", "trailing"}
+                        node_arg = t["args"][0]
+                    elif re.search(r"Iterator>::any$|::any$", c) and len(t["args"]) >= 2:
+                        # `.leading_trivia().any(trivia_is_comment)`
+                        fnref = [r for r in provenance(f, t["args"][1], through=None) if r[0] == "const" and "trivia_is_comment" in r[1]]
+                        if fnref:
+                            for r in provenance(f, t["args"][0], through=None):
+                                if r[0] == "call" and re.search(r"(leading_trivia|trailing_trivia)$", r[1]):
+                                    tt = f.blocks[r[2]]["term"]
+                                    sides = {"leading"} if "leading_trivia" in r[1] else {"trailing"}
+                                    node_arg = tt["args"][0]
+                    if sides is None or node_arg is None or is_const(node_arg):
+                        continue
+                    key = _accessor_chain(f, node_arg)
+                    for acc in need:
+                        if f"::{acc};" in key or f".{acc};" in key:
+                            tested.setdefault(acc, set()).update(sides)
+            for acc, sides in need.items():
+                missing = sorted(sides - tested.get(acc, set()))
+                rep.inst(f"stylua_lib {name}: {acc} tested for comments", {"guard": name, "token": acc,
+                                                                            "tested_sides": sorted(tested.get(acc, set()))},
+                         cfg, ok=not missing)
+                if missing:
+                    rep.violation(f"stylua_lib::{members[0]} collapse-without-comment-test {acc}.{','.join(missing)}",
+                                  f"the {name} layout is chosen without testing the {missing} comments of `{acc}`: a "
+                                  f"line comment there ends up in front of the rest of the collapsed line and comments "
+                                  f"it out", fns[0].loc(), cfg)
+        # the single-line if is returned only under is_if_guard(..) == true
+        f = prog.fn("stylua_lib", "formatters::stmt::format_if")
+        if f is not None:
+            gs = [(b, t) for b, t in f.calls() if callee(t) == "formatters::stmt::is_if_guard"]
+            ok = False
+            if len(gs) == 1:
+                e = bool_edge(f, gs[0][0])
+                if e:
+                    tr, fl = e
+                    # every aggregate / with_block call building the collapsed form is dominated by the true edge
+                    wb = [b for b, t in f.calls() if callee(t).endswith("If::with_block") and f.dominates(tr, b)]
+                    ok = bool(wb)
+            rep.inst("stylua_lib format_if: collapsed form built only under is_if_guard", None, cfg, ok=ok)
+            if not ok:
+                rep.violation("stylua_lib::formatters::stmt::format_if collapse-not-guarded",
+                              "the single-line if is built without is_if_guard(..) dominating it", f.loc(), cfg)
+    return rep
